@@ -7,6 +7,7 @@ mod codec;
 mod e2e;
 mod e2epub;
 mod e2erec;
+mod e2erep;
 mod e2esub;
 mod e2ereq;
 mod e2etls;
@@ -76,6 +77,7 @@ fn run_suite(suite: &str, cfg: &Cfg) {
         "e2etls" => e2etls::run(cfg),
         "e2erec" => e2erec::run(cfg),
         "e2esub" => e2esub::run(cfg),
+        "e2erep" => e2erep::run(cfg),
         other => { eprintln!("unknown suite {other}"); std::process::exit(2); }
     }
 }
@@ -87,6 +89,7 @@ pub fn dispatch_child(op: &str, input: &[u8]) -> String {
         "rr" => reqrep::child(input),
         "ps" => pubsub::child(input),
         "dcx" => e2esub::dcx(input),
+        "ppraw1" => e2esub::child_case(input),
         other => codec::child(other, input).unwrap_or_else(|| format!("unknown-op {other}")),
     }
 }
